@@ -33,13 +33,22 @@ PROP = "C09"
 IMPORTS = "Base Macro"
 SHARD = 120
 RULE = ("macro definitions grown from the script grammar (0-4 parameters used 0/1/many times, passed straight to "
-        "outputs, fed to nested macros up to depth 3, with/without defaults and int/object hints; 0-4 children; "
+        "outputs, fed to nested macros up to three levels, with/without defaults and int/object hints; 0-4 children; "
         "explicit or scraped output labels; automatic or hand-wired chain flow; some malformed: duplicate labels, "
-        "half-specified flow, incompatible hints, missing nested arguments) x operation sequences (assignments to "
-        "macro/child inputs and outputs at any depth, runs); a case is non-trivial when the macro has at least "
-        "one child and the sequence contains a run; distinct = distinct (definition, operations)")
+        "half-specified flow, incompatible hints, missing nested arguments), declared in every form (decorator; "
+        "class-based with a parent macro class, both orders of first use; FUNCTION form macro_node(creator, ...) with "
+        "the same creator object declared 2-3 times with other labels/flags; creators nested in builder functions, "
+        "optionally after ANOTHER creator of the same __name__) x operation sequences (assignments to macro/child "
+        "inputs and outputs at any depth through the panel item / panel attribute / channel.value spellings, "
+        "m.run(x=v) / m(x=v), refused non-int assignments, re-assignment of the same object after a child-level "
+        "edit, runs); a case is non-trivial when the macro has at least one child and the sequence contains a run; "
+        "distinct = distinct (definition, declarations, operations)")
 TRUSTED = ["harness/props/c09.py: rendering of a definition as python source, reading the wiring and the values off "
-           "the real objects, the plain-python and plain-Workflow references"]
+           "the real objects, the plain-python and plain-Workflow references",
+           "class-level history (which class / creator was declared first, the factory's class registry, use_cache "
+           "flags) is outside the Coq model, whose build takes only the definition: those families are checked by "
+           "the oracle against each declaration's own definition, and by comparing every declaration's wiring with "
+           "the model's build of that definition"]
 ASSUMPTIONS = ["values are ints (or NOT_DATA); hints are int/object, so no value ever fails a hint at run time",
                "parameters with defaults follow those without (python syntax); children are created in an order "
                "compatible with the data flow (an argument refers to a parameter or an EARLIER child)",
